@@ -27,8 +27,9 @@ MC_WB = os.path.join(ROOT, "spec/mc/MC_WriterBuffer.tla")
 MC_SER = os.path.join(ROOT, "spec/mc/MC_Serializer.tla")
 BUF = 512
 
-ENCODINGS = ["UTF-8", "UTF-16", "ISO-8859-1", "US-ASCII", "windows-1252", "GB18030"]
-PYCODEC = {"UTF-8": "utf-8", "UTF-16": "utf-16", "ISO-8859-1": "latin-1", "US-ASCII": "ascii", "windows-1252": "cp1252", "GB18030": "gb18030"}
+ENCODINGS = ["UTF-8", "UTF-16", "ISO-8859-1", "US-ASCII", "windows-1252", "GB18030", "UTF-16BE"]
+NO_LEGACY = {"UTF-16BE"}       # encodings only run through the factory serializer and end to end
+PYCODEC = {"UTF-16BE": "utf-16-be", "UTF-8": "utf-8", "UTF-16": "utf-16", "ISO-8859-1": "latin-1", "US-ASCII": "ascii", "windows-1252": "cp1252", "GB18030": "gb18030"}
 VERSIONS = ["1.0", "1.1"]
 
 
@@ -471,6 +472,18 @@ def gen_e2e_extra(start_id):
     return cases
 
 
+def drop_legacy(cases):
+    out = []
+    for c in cases:
+        if c["enc"] in NO_LEGACY:
+            w = [x for x in c["which"] if x != "legacy"]
+            if not w:
+                continue
+            c = dict(c, which=w)
+        out.append(c)
+    return out
+
+
 def attach_e2e(cases):
     for c in cases:
         if "e2e" in c["which"] and "xsl" not in c:
@@ -525,7 +538,7 @@ def strings_of(script):
 def encodable(c, enc):
     if 0xD800 <= c <= 0xDFFF:
         return False
-    if enc in ("UTF-8", "UTF-16", "GB18030"):
+    if enc in ("UTF-8", "UTF-16", "GB18030", "UTF-16BE"):
         return True
     try:
         chr(c).encode(PYCODEC[enc]); return True
@@ -825,7 +838,7 @@ def run(res, tier, seed):
     # ---- GEN
     hists = export_histories(tier, wd)
     phase["gen_tlc"] = round(time.time() - t0, 1)
-    cases = gen_cases(tier, rng)
+    cases = drop_legacy(gen_cases(tier, rng))
     bcases = gen_buffer_cases(hists, len(cases) + 1)
     cases += bcases
     cases += gen_e2e_extra(len(cases) + 1)
